@@ -4,7 +4,7 @@ import random
 from haiway import MISSING
 
 from harness.legs import cfg_text, leg_m, leg_mutant, leg_r
-from props.values_common import is_frozen, make_class, make_generic, py_to_val, val_to_py
+from props.values_common import is_frozen, make_class, make_generic, make_generic_subclass, py_to_val, val_to_py
 
 SPEC = "Values"
 MANIFEST = dict(
@@ -16,8 +16,11 @@ MANIFEST = dict(
          "are declared Contested: both verdicts accepted, faithfulness still enforced. TLC enumerates every "
          "(annotation, value) pair of the bounded term sets (~10^4 pairs, annotation depth <= 2) and checks algebraic "
          "obligations on the oracle (ExactlyConforming, NormConforms, NormIdempotent, Faithful, StoredImmutable, "
-         "UnionIsDisjunction); every pair is then replayed into a real dynamically built State subclass (value supplied "
-         "or given as class default) and verdict + stored term compared with the successor state. In the thorough tier "
+         "UnionIsDisjunction); every pair is then replayed into real dynamically built State classes four ways (constructor "
+         "argument of a plain class, class default, GHolder[annotation], a subclass of GHolder[annotation]) which have to "
+         "agree, and verdict + stored term are compared with the successor state. The vocabulary includes the plain "
+         "instance-checked types (complex, range, UUID, date / datetime, time, timedelta, timezone, Path, Pattern), "
+         "Callable, type, plain and parametrised type aliases (haiway.frozenlist[x], a local Pair[x]). In the thorough tier "
          "hypothesis-style random terms up to depth 4 are judged by TLC evaluating the same operators (ValuesTrace).",
     technique="TLA+ spec used as exhaustively self-checked executable oracle (TLC enumerates all term pairs); every pair "
               "replayed into the implementation; TLC evaluates Conforms/Norm on recorded random cases",
@@ -32,7 +35,7 @@ def construct(ann, val, use_default, generic=False):
         pyval = val_to_py(val)
         if generic:
             try:
-                cls = make_generic(ann)
+                cls = make_generic_subclass(ann) if generic == "sub" else make_generic(ann)
             except Exception:  # noqa: BLE001  - an annotation that cannot be a type argument: plain holder instead
                 cls = make_class(ann)
             inst = cls(x=pyval)
@@ -51,18 +54,30 @@ def construct(ann, val, use_default, generic=False):
     return dict(acc="yes", stored=term)
 
 
+FORMS = ("plain", "default", "generic", "generic-sub")
+
+
 class ValuesDriver:
-    n = 0
+    """every pair goes through every form of holder class: the value passed to the constructor of a plain class, given
+    as the class default, passed to GHolder[annotation], passed to a subclass of GHolder[annotation]; the forms have to
+    agree (and the specification judges what they agree on)"""
 
     def reset(self, init):
         self.ann, self.val = init["ann"], init["val"]
-        ValuesDriver.n += 1
-        self.use_default = (ValuesDriver.n % 3 == 0) and self.val["k"] != "missing"
-        self.generic = ValuesDriver.n % 3 == 1
 
     def apply(self, name, args):
         assert name == "Construct"
-        return construct(self.ann, self.val, self.use_default, self.generic)
+        out = {}
+        for form in FORMS:
+            if form == "default" and self.val["k"] == "missing":
+                continue  # MISSING as a default means "no default"
+            out[form] = construct(self.ann, self.val, form == "default",
+                                  {"generic": True, "generic-sub": "sub"}.get(form, False))
+        first = out["plain"]
+        differing = {f: o for f, o in out.items() if o != first}
+        if differing:
+            return dict(first, forms_disagree=dict(plain=first, **differing))
+        return first
 
     def close(self):
         pass
@@ -91,8 +106,8 @@ def run(rep, work, tier, seed):
         "Optional, a plain type alias; old typing.List-style and bare generics are out of scope",
         "contested points (accepted either way): ==-equal Literal member of another type, list for tuple[...], str/bytes "
         "for Sequence[...]; NaN excluded",
-        "every third pair supplies the value as the class default instead of as a constructor argument, every third "
-        "pair goes through a generic holder specialised with the annotation (GHolder[annotation])",
+        "every pair is constructed four ways - constructor argument of a plain class, class default, GHolder[annotation], "
+        "a subclass of GHolder[annotation] - and the four have to agree",
     ]
     return rep.finish(exhaustive=True,
                       rule="every (annotation term, value term) pair of the bounded sets is one initial state; one Construct "
@@ -103,5 +118,6 @@ def replay(rep, record):
     init = record["init"]
     print("  annotation:", init["ann"])
     print("  value     :", init["val"])
-    for d in (False, True):
-        print(f"  construct(default={d}) ->", construct(init["ann"], init["val"], d))
+    d = ValuesDriver()
+    d.reset(init)
+    print("  construct (all forms) ->", d.apply("Construct", ()))
